@@ -19,7 +19,8 @@ CONSTANTS K,        \* refinement depth bound
           NShards,  \* roots are split over NShards TLC processes ...
           Shard,    \* ... this one takes the roots with index % NShards = Shard
           Emit,     \* print every distinct state as a JSON line
-          RootSel,  \* "all" or one root kind
+          RootSel,  \* "all", one root kind, "unionholder", or "named" (roots listed in RootNames)
+          RootNames,
           KU,       \* unknown keys below union positions are added to states of depth < KU
           KV        \* variants (deviations, dropped specials, unknown keys) are taken from states of depth < KV (0 = none)
 
@@ -40,6 +41,7 @@ HasRealUnion(t) == CASE t.kind = "or" -> Cardinality({i \in DOMAIN t.items : ~Is
                      [] OTHER -> FALSE
 UnionHolder(r) == r.kind = "structure" /\ \E i \in DOMAIN FlatM[r.name] : HasRealUnion(FlatM[r.name][i].type)
 KindOK(r) == RootSel = "all" \/ RootSel = r.kind \/ (RootSel = "unionholder" /\ UnionHolder(r))
+             \/ (RootSel = "named" /\ r.name \in RootNames)
 Roots == {RootSeq[i] : i \in {i \in DOMAIN RootSeq : i % NShards = Shard /\ KindOK(RootSeq[i])}}
 
 (***************************************************************************)
@@ -88,7 +90,7 @@ MinV(t) ==
       [] t.kind = "map" -> OMap(<<>>)
       [] t.kind = "or" -> MinV(t.items[1])
       [] t.kind = "tuple" -> OTup([i \in DOMAIN t.items |-> MinV(t.items[i])])
-      [] t.kind = "literal" -> OAny(JObj(<<>>))
+      [] t.kind = "literal" -> IF t.value.properties = <<>> THEN OAny(JObj(<<>>)) ELSE MinInst(ClsLitOf(t))
       [] t.kind = "stringLiteral" -> JStr(t.value)
 
 \* the minimal object of every alternative (unions and aliases of unions flattened)
@@ -137,7 +139,7 @@ Ref(o, t) ==
             \cup (UNION {AltMins(t.items[i]) : i \in DOMAIN t.items \ cur})
       [] t.kind = "tuple" ->
             UNION { { [o EXCEPT !.a[i] = c] : c \in Ref(o.a[i], t.items[i]) } : i \in DOMAIN t.items }
-      [] t.kind = "literal" -> {}
+      [] t.kind = "literal" -> IF t.value.properties = <<>> THEN {} ELSE RefInst(o)
       [] t.kind = "stringLiteral" -> {}
       [] OTHER -> {}
 
